@@ -197,3 +197,5 @@ def run(ctx):
     c12.r3(ctx, 'C10.R3')
     c12.r5(ctx, 'C10.R4')
     r5(ctx)
+    import rules.C09 as c09
+    c09.symbol_layout_rule(ctx, 'C10.R6')
